@@ -18,6 +18,7 @@ from __future__ import annotations
 import vlib.boot  # noqa: F401
 from vlib.boot import B, drive
 from vlib.ob import obligation
+from vlib.h_handlers import conc, concb, native  # noqa: F401  (importing it installs the native-pydantic-constructor speed-up)
 from vlib.world import (
     EVA, EVB, EVC, EvA, EvB, EvC, MYSTOP, START, STOP, StubPolicy, rep_R1, rep_R2, world_ab, world_ab_valid,
 )
@@ -136,8 +137,10 @@ def _result(kind: int, failed_at: int):
 
 
 @obligation(quick=150, thorough=500,
-            partitions_quick=[f"kind == {k}" for k in range(9)],
-            partitions_thorough=[f"kind == {k} and nw == {n}" for k in range(9) for n in (1, 2, 3)],
+            partitions_quick=[f"kind == {k}" for k in range(9) if k != 2] + [f"kind == 2 and pol == {p} and att {a}" for p in (0, 1, 2, 4) for a in ("== 0", ">= 1")] + ["kind == 2 and pol == 3"],
+            partitions_thorough=[f"kind == {k} and nw == {n}" for k in range(9) if k != 2 for n in (1, 2, 3)]
+            + [f"kind == 2 and pol == {p} and att == {a} and nw == {n}" for p in (0, 1, 2, 4) for a in (0, 1, 2) for n in (1, 2, 3)]
+            + [f"kind == 2 and pol == 3 and nw == {n}" for n in (1, 2, 3)],  # (pol 3, att 0) is the class of KF-C11-1: do not split by att
             what="TickStepResult (9 result kinds incl. failure with 5 policy kinds): live reduce (now1, run_id) and replay reduce "
                  "(now2, None) from states equal up to timestamps give states equal up to timestamps",
             bounds={"num_workers": "1..3", "queue": "0..QMAX", "attempts": "0..2", "timestamps/now": "0..6 each, independent",
@@ -163,7 +166,7 @@ def ob_replay_step_result(nw: int, b0: bool, b1: bool, b2: bool, q: int, wid: in
     return strip(l) == strip(r)
 
 
-@obligation(quick=120, thorough=400, partitions_quick=[f"evk == {e} and retried == {r}" for e in range(4) for r in (False, True)],
+@obligation(quick=120, thorough=400, partitions_quick=[f"evk == {e} and retried == False" for e in range(4)] + [f"evk == {e} and retried == True and wk {w}" for e in range(4) for w in ("<= 1", ">= 2")],
             partitions_thorough=[f"evk == {e} and nw == {n} and retried == {r}" for e in range(4) for n in (1, 2, 3) for r in (False, True)],
             what="TickAddEvent (plain / targeted / waiter-resolving / retried with attempts and first_attempt_at / StartEvent): "
                  "live and replay reduce agree up to timestamps",
@@ -278,6 +281,7 @@ async def _aiter(items):
 
 
 N_SCRIPT = B(3, 4)
+THOROUGH_FOLD = B(False, True)
 
 
 @obligation(quick=240, thorough=900,
@@ -291,9 +295,10 @@ def ob_rebuild_is_fold(nw: int, pol: int, k0: int, k1: int, k2: int, k3: int, rn
     """
     pre: 1 <= nw <= 2 and pol in (0, 2)
     pre: 0 <= k0 <= 1 and 0 <= k1 <= 7 and 0 <= k2 <= 7 and 0 <= k3 <= 7 and (N_SCRIPT >= 4 or k3 == 0)
-    pre: 0 <= rnow <= TS
+    pre: 0 <= rnow <= TS and (THOROUGH_FOLD or rnow == 0 or rnow == TS)
     post: _
     """
+    nw, pol, k0, k1, k2, k3 = conc(nw, 1, 2), conc(pol, 0, 2), conc(k0, 0, 1), conc(k1, 0, 7), conc(k2, 0, 7), conc(k3, 0, 7)
     policy = _policy(pol, 2, 0)
     init = world_ab(nw, False, False, False, 0, policy=policy, is_running=True)
     ks = [k0, k1, k2, k3][:N_SCRIPT]
@@ -333,3 +338,67 @@ def ob_rebuild_is_fold(nw: int, pol: int, k0: int, k1: int, k2: int, k3: int, rn
         if isinstance(last_exit, (CommandFailWorkflow, CommandHalt)) and type(rr.exit_command.exception) is not type(last_exit.exception):
             return False
     return True
+
+
+# ----------------------------------------------------------------------------------------------- purity
+
+
+def _full(state):
+    """Canonical form INCLUDING timestamps and slot order (used to detect in-place mutation of an input state)."""
+    out = [bool(state.is_running)]
+    for name in sorted(state.workers):
+        ws = state.workers[name]
+        q = [(_ev(a.event), a.attempts, a.first_attempt_at, _ev(a.last_exception), a.last_failed_at, sorted(a.recovery_counts.items())) for a in ws.queue]
+        ip = [(x.worker_id, _ev(x.event), x.attempts, x.first_attempt_at, _ev(x.last_exception), x.last_failed_at, sorted(x.recovery_counts.items()),
+               _bufs(x.shared_state.collected_events), _waiters(x.shared_state.collected_waiters)) for x in ws.in_progress]
+        out.append((name, q, ip, _bufs(ws.collected_events), _waiters(ws.collected_waiters)))
+    return out
+
+
+@obligation(quick=150, thorough=300, partitions_quick=[f"fn == {f} and nw == {n}" for f in range(4) for n in (1, 2, 3)],
+            partitions_thorough=[f"fn == {f} and nw == {n} and q == {q}" for f in range(4) for n in (1, 2, 3) for q in (0, 1, 2)],
+            what="replay never disturbs what it replays from: rewind_in_progress / _reduce_tick / rebuild_state_from_ticks leave their INPUT state "
+                 "untouched (the live runner and every replay share one init_state object), and rebuilding twice from the same init state and "
+                 "log gives the same state",
+            bounds={"num_workers": "1..3", "queue": "0..2", "resumed shapes": "any busy-slot pattern (not only REP)", "function": "rewind / reduce(add) / reduce(result) / rebuild x2"})
+def ob_replay_is_pure(nw: int, b0: bool, b1: bool, b2: bool, q: int, bb: bool, bq: int, att: int, fn: int, wk: int) -> bool:
+    """
+    pre: 1 <= nw <= 3 and 0 <= q <= 2 and 0 <= bq <= 1 and 0 <= att <= 1 and 0 <= fn <= 3 and 0 <= wk <= 2
+    pre: (not b1 or nw >= 2) and (not b2 or nw >= 3)
+    post: _
+    """
+    nw, q, bq, att, fn, wk = conc(nw, 1, 3), conc(q, 0, 2), conc(bq, 0, 1), conc(att, 0, 1), conc(fn, 0, 3), conc(wk, 0, 2)
+    b0, b1, b2, bb = concb(b0), concb(b1), concb(b2), concb(bb)
+    st = world_ab(nw, b0, b1, b2, q, b_busy=bb, b_q=bq, att=att, wait_kind=wk, t0=1, q_event=None)
+    # distinguishable queue / in-progress entries: give every entry its own event object
+    pool = [EVA, EvA(), EvA(), EvA(), EvA(), EvA()]
+    k = 0
+    for x in st.workers["a"].in_progress:
+        x.event = pool[k]
+        k += 1
+    for a in st.workers["a"].queue:
+        a.event = pool[k]
+        k += 1
+    before = _full(st)
+    saved = cl_mod.time
+    cl_mod.time = _Clock(2)
+    try:
+        if fn == 0:
+            rewind_in_progress(st, 2)
+        elif fn == 1:
+            _reduce_tick(TickAddEvent(event=EVA), st, 2, "r")
+        elif fn == 2:
+            ips = st.workers["a"].in_progress
+            if ips:
+                _reduce_tick(TickStepResult.model_construct(step_name="a", worker_id=ips[0].worker_id, event=ips[0].event,
+                                                            result=[StepWorkerResult(result=None)]), st, 2, "r")
+        else:
+            one = rebuild_state_from_ticks(st, [TickAddEvent(event=EVB)])
+            if _full(st) != before:
+                return False
+            two = rebuild_state_from_ticks(st, [TickAddEvent(event=EVB)])
+            if strip(one) != strip(two):
+                return False
+    finally:
+        cl_mod.time = saved
+    return _full(st) == before
